@@ -1,8 +1,8 @@
 (* L0 oracle for C12: the implementation's observed statistics against Spec/Stats.v.  Nothing generated.
    Per statistic the harness passes: ref = its own exact (Fraction) evaluation of the textbook formula, which
    must EQUAL the L0 rational computed here (so the tolerance comparison the harness makes on the Python side is a
-   comparison with the L0 value); impl = the float the implementation returned; exact = true when every
-   floating-point operation involved is exact on this input, in which case impl is compared exactly here. *)
+   comparison with the L0 value); impl = the float the implementation returned; a mode (below) saying how impl is
+   compared with the L0 rational here. *)
 From Coq Require Import ZArith QArith Qcanon List Bool String.
 From DM Require Export Base.PyVal Base.QcPy Spec.Stats.
 Import ListNotations.
@@ -21,21 +21,49 @@ Definition exact_ok (s : stat) (q : Qc) (impl : fl) : bool :=
   | _ => oq_eqb (fl_q impl) (Some q)
   end.
 
-Definition stat_ok (s : stat) (cells : list val) (ref : claim) (impl : fl) (exact : bool) : bool :=
-  if in_scope cells then
-    match col_stat s cells with
+(* cells are xcell (Spec/Stats.v): what the column holds, whatever type it was stored with *)
+(* how the returned float is compared with the rational q (decided by the harness from the input only):
+   MExact: every floating-point operation is exact on this input: equal.
+   MHalfUlp: the result is one correctly rounded operation on exactly computed operands: q lies within half a unit
+   in the last place of the returned float x = m * 2^e (m odd), i.e. |x - q| <= 2^(log2 m + e - 53).
+   MFinite: finite; the tolerance comparison is made on the Python side against ref, which is checked equal to q. *)
+Inductive mode := MExact | MHalfUlp | MFinite.
+Definition half_ulp_ok (q : Qc) (impl : fl) : bool :=
+  match impl with
+  | FZero _ => Qceqb q 0%Qc
+  | FFin _ m e =>
+      match fl_q impl with
+      | Some x => let h := dy_q (1, Z.log2 (Z.pos m) + e - 53)%Z in Qcleb (x - q)%Qc h && Qcleb (q - x)%Qc h
+      | None => false
+      end
+  | _ => false
+  end.
+Definition mode_ok (md : mode) (s : stat) (q : Qc) (impl : fl) : bool :=
+  match md with
+  | MExact => exact_ok s q impl
+  | MHalfUlp => match s with Var => false | _ => half_ulp_ok q impl end
+  | MFinite => true
+  end.
+
+Definition stat_ok (s : stat) (cells : list xcell) (ref : claim) (impl : fl) (md : mode) : bool :=
+  if xin_scope cells then
+    match xcol_stat s cells with
     | None => fl_is_nan impl && match ref with CNan => true | _ => false end
     | Some q =>
-        match s, nums cells with
+        match s, xnums cells with
         | Sum, [] => fl_is_nan impl || fl_is_zero impl        (* left open by the property text *)
         | _, _ =>
             match ref with CVal r => Qceqb r q | CNan => false end
-            && fl_is_finite impl && (if exact then exact_ok s q impl else true)
+            && fl_is_finite impl && mode_ok md s q impl
         end
     end
   else true.
 
-Definition ob := (stat * claim * fl * bool)%type.
-Definition oracle (cells : list val) (obs : list ob) (u : list val) (cnt : Z) : bool :=
+Definition ob := (stat * claim * fl * mode)%type.
+Definition oracle (cells : list xcell) (obs : list ob) (u : list xcell) (cnt : Z) : bool :=
   forallb (fun o : ob => let '(s, r, x, e) := o in stat_ok s cells r x e) obs
-  && unique_ok cells u && (cnt =? zlen u)%Z.
+  && xunique_ok cells u && (cnt =? zlen u)%Z.
+(* a column read several times with modifications in between: every reading describes the cells held at that time *)
+Definition reading := (list xcell * list ob * list xcell * Z)%type.
+Definition oracle_seq (rs : list reading) : bool :=
+  forallb (fun r : reading => let '(cells, obs, u, cnt) := r in oracle cells obs u cnt) rs.
